@@ -348,11 +348,12 @@ def run(ctx):
                  ({"executor": "aws_glue", "jobs": 2, "pause": 3}, 1), ({"executor": "k8s", "jobs": 2, "pause": 2}, 1), ({"executor": "gcp_batch", "jobs": 2, "pause": 2}, 1),
                  ({"executor": "aws_batch", "jobs": 2, "pause": 1}, 1), ({"executor": "aws_batch+arrayer", "jobs": 2, "pause": 3}, 1)]
     else:
+        # sized from measured executions: docker at bound 3 is ~250k executions, every other case 10k-60k
         cases = [({"executor": "docker", "jobs": 2, "pause": 1}, 3), ({"executor": "docker", "jobs": 3, "pause": 1}, 2), ({"executor": "docker", "jobs": 2, "pause": 2}, 2),
-                 ({"executor": "aws_batch", "jobs": 2, "pause": 3}, 2), ({"executor": "aws_batch", "jobs": 2, "pause": 1}, 2), ({"executor": "aws_batch", "jobs": 3, "pause": 3}, 1),
-                 ({"executor": "aws_batch+arrayer", "jobs": 2, "pause": 3}, 2), ({"executor": "aws_glue", "jobs": 2, "pause": 3}, 2), ({"executor": "aws_glue", "jobs": 3, "pause": 2}, 1),
-                 ({"executor": "k8s", "jobs": 2, "pause": 2}, 2), ({"executor": "k8s", "jobs": 2, "pause": 1}, 2), ({"executor": "k8s", "jobs": 3, "pause": 2}, 1),
-                 ({"executor": "gcp_batch", "jobs": 2, "pause": 2}, 2), ({"executor": "gcp_batch", "jobs": 2, "pause": 1}, 2), ({"executor": "gcp_batch", "jobs": 3, "pause": 2}, 1)]
+                 ({"executor": "aws_batch", "jobs": 2, "pause": 3}, 2), ({"executor": "aws_batch", "jobs": 2, "pause": 1}, 2),
+                 ({"executor": "aws_batch+arrayer", "jobs": 2, "pause": 3}, 1), ({"executor": "aws_batch+arrayer", "jobs": 2, "pause": 1}, 1),
+                 ({"executor": "aws_glue", "jobs": 2, "pause": 3}, 2), ({"executor": "k8s", "jobs": 2, "pause": 2}, 2), ({"executor": "k8s", "jobs": 2, "pause": 1}, 2),
+                 ({"executor": "gcp_batch", "jobs": 2, "pause": 2}, 2), ({"executor": "gcp_batch", "jobs": 2, "pause": 1}, 2)]
     case_bounds = list(cases)
     roots = ctx.pmap(explore_case, [(c, b, cap, "roots") for c, b in cases], chunksize=1)
     check_harness_errors(roots)
